@@ -27,22 +27,29 @@ class PathFacts:
         def const_of(a):
             if isinstance(a, ast.Constant):
                 return a.value
+            if isinstance(a, ast.Starred) and isinstance(a.value, ast.Name):
+                v = env.get(a.value.id)
+                return v[0] if isinstance(v, tuple) and v else None
             if isinstance(a, ast.Name):
                 return env.get(a.id)
             return None  # self.fail_code etc. are resolved by the wrapper rule
 
         def bind(t, v):
             if isinstance(t, ast.Name):
-                env[t.id] = v.value if isinstance(v, ast.Constant) else (env.get(v.id) if isinstance(v, ast.Name) else None)
+                if isinstance(v, ast.Tuple) and v.elts and all(isinstance(x, ast.Constant) for x in v.elts[:1]):
+                    env[t.id] = tuple(x.value if isinstance(x, ast.Constant) else None for x in v.elts)
+                else:
+                    env[t.id] = v.value if isinstance(v, ast.Constant) else (env.get(v.id) if isinstance(v, ast.Name) else None)
 
         for e in ev:
             if e[0] == "branch":
                 t, pol = e[1], e[2]
-                if pol:
-                    truthy.append(src(t))
                 tt, tpol = t, pol
                 if isinstance(tt, ast.UnaryOp) and isinstance(tt.op, ast.Not):
                     tt, tpol = tt.operand, not tpol
+                if tpol:
+                    truthy.append(src(tt))
+                    truthy.append(src(expand(p, tt, fn)))
                 if isinstance(tt, ast.Name) and tt.id in env and env[tt.id] is not None and bool(env[tt.id]) != tpol:
                     self.infeasible = True
                 if isinstance(tt, ast.Constant) and bool(tt.value) != tpol:
@@ -56,7 +63,7 @@ class PathFacts:
                         self.infeasible = True
                 nodes = [t]
             elif e[0] == "loopexit":
-                if e[2] == 0 and isinstance(e[1], (ast.For, ast.AsyncFor)) and src(e[1].iter) in truthy:
+                if e[2] == 0 and isinstance(e[1], (ast.For, ast.AsyncFor)) and (src(e[1].iter) in truthy or src(expand(p, e[1].iter, fn)) in truthy):
                     self.infeasible = True
                 continue
             elif e[0] == "stmt":
